@@ -100,6 +100,10 @@ def _read_model(mode):
             substrate.fields['pos'] = pos + k
         return out
     model.is_generator_model = True
+    model.__doc__ = ('call reduction of readFromStream (contract codec.streaming::readFromStream[%s], proved on its own): '
+                     'the final chunk is exactly the requested octets at the old position and the position advances by '
+                     'that many; underrun markers in between are forwarded by the caller (obligation D1) and do not move the '
+                     'position; EndOfStreamError only at the end of the data' % mode)
     return model
 
 
